@@ -100,7 +100,16 @@ def softmax_cases(draw):
         "key_seeds": draw(st.lists(gen.seeds(), min_size=2, max_size=2)),
         "act_seed": draw(gen.seeds()),
     }
+    # rows of one batch whose logits live at very different levels (softmax is shift-invariant per row, so every
+    # row is still the same kind of distribution): a linear head whose first input feature adds the same amount to
+    # every action, and observations that carry a per-row level in that feature
+    if case["batch"] >= 2 and draw(st.sampled_from([True, False, False])):
+        case["hidden"] = []
+        case["row_levels"] = draw(st.lists(st.sampled_from(ROW_LEVELS), min_size=case["batch"], max_size=case["batch"]))
     return case
+
+
+ROW_LEVELS = [-150.0, 0.0, 300.0, -1000.0, 120.0, 0.0]
 
 
 def _softmax_policy(case):
@@ -109,7 +118,19 @@ def _softmax_policy(case):
     net = pn.make_mlp(case["obs_dim"], case["n_actions"], case["hidden"], case["net_seed"])
     pn.scale_output_kernels(net, case["kscale"])
     pn.set_bias(net.output_layer, case["logits"])
+    if case.get("row_levels"):
+        k = np.array(net.output_layer.kernel.value)
+        k[0, :] = 1.0
+        net.output_layer.kernel.value = _jnp().asarray(k)
     return SoftmaxPolicy(net)
+
+
+def _softmax_obs(case):
+    obs = _obs(case)
+    if case.get("row_levels"):
+        obs = np.array(obs)
+        obs[:, 0] = np.asarray(case["row_levels"], dtype=np.float32)
+    return obs
 
 
 def run_softmax(case):
@@ -118,7 +139,7 @@ def run_softmax(case):
 
     na, bs = case["n_actions"], _bshape(case)
     policy = _softmax_policy(case)
-    obs = jnp.asarray(_obs(case))
+    obs = jnp.asarray(_softmax_obs(case))
     L = np.asarray(policy.logits(obs))
     assert L.shape == bs + (na,), L.shape
     p_ref, logp_ref, h_ref = pn.softmax_ref(L)
@@ -171,6 +192,9 @@ def run_softmax(case):
     labels = ["single" if case["batch"] == 0 else f"batch={case['batch']}", f"A={na}",
               "extreme-logits" if extreme else "moderate-logits",
               "ties" if len(set(case["logits"])) < na else "no-ties"]
+    if case.get("row_levels"):
+        lv = case["row_levels"]
+        labels.append("row-levels-apart>104" if max(lv) - min(lv) > 104.0 else "row-levels-close")
     return Outcome(labels=labels, nontrivial=(case["batch"] != 2 or extreme))
 
 
